@@ -30,7 +30,8 @@ fn wire_eq(ts: (u64, u32), w: WireTimestamp) -> bool {
 
 /// Sync: only from Master; sequence id +1 mod 2^16; one event send with the Sync context; sync timer re-armed.
 #[kani::proof]
-#[kani::unwind(66)]
+#[kani::unwind(9)]
+#[kani::stub(PortActionIterator::from, PortActionIterator::verif_recording_from)]
 #[kani::stub(crate::time::Interval::as_core_duration, stub_as_core_duration)]
 fn c10_send_sync() {
     let lock = ChkLock::new(any_instance_state(0));
@@ -39,7 +40,7 @@ fn c10_send_sync() {
     let inst = instance_view(lock.peek());
     let own = port.port_identity;
 
-    let actions = summarize(port.handle_sync_timer(), 3);
+    let actions = run_actions!(port.handle_sync_timer());
     let post = port_view(&port);
     assert!(instance_view(lock.peek()) == inst);
 
@@ -48,7 +49,7 @@ fn c10_send_sync() {
         let id = pre.seq[1];
         want.seq[1] = id.wrapping_add(1);
         assert!(post == want);
-        assert!(actions.n == 2 && actions.n_reset_sync == 1 && actions.n_send_event == 1 && actions.exhausted);
+        assert!(actions.n == 2 && actions.n_reset_sync == 1 && actions.n_send_event == 1);
         assert!(actions.ctx_kind == 0 && actions.ctx_id == id);
         let f = actions.event.unwrap();
         assert!(!f.link_local && frame_well_formed(&f, 0x0));
@@ -66,7 +67,8 @@ fn c10_send_sync() {
 /// Follow_Up for a reported Sync transmit timestamp: same sequence id, preciseOriginTimestamp =
 /// WireTimestamp::from(ts), correctionField = subnano(ts); exactly one general send; only from Master.
 #[kani::proof]
-#[kani::unwind(66)]
+#[kani::unwind(9)]
+#[kani::stub(PortActionIterator::from, PortActionIterator::verif_recording_from)]
 #[kani::stub(<WireTimestamp as core::convert::From<Time>>::from, stub_wire_from_time)]
 fn c10_follow_up_for_sync_timestamp() {
     let lock = ChkLock::new(any_instance_state(0));
@@ -78,12 +80,12 @@ fn c10_follow_up_for_sync_timestamp() {
     let ts = any_time();
 
     let ctx = TimestampContext { inner: actions::TimestampContextInner::Sync { id } };
-    let actions = summarize(port.handle_send_timestamp(ctx, ts), 3);
+    let actions = run_actions!(port.handle_send_timestamp(ctx, ts));
     let post = port_view(&port);
     assert!(instance_view(lock.peek()) == inst);
     assert!(post == pre);
     if pre.tag == 2 {
-        assert!(actions.n == 1 && actions.n_send_general == 1 && actions.n_send_event == 0 && actions.exhausted);
+        assert!(actions.n == 1 && actions.n_send_general == 1 && actions.n_send_event == 0);
         let f = actions.general.unwrap();
         assert!(!f.link_local && frame_well_formed(&f, 0x8));
         let h = spec_frame(&f);
@@ -106,7 +108,8 @@ fn delay_req_correction_in_range(h: &Header) -> bool {
 /// Delay_Resp: echoes requester identity and sequence id; receiveTimestamp = WireTimestamp::from(ts),
 /// correction = request correction + subnano(ts); only from Master; one general send.
 #[kani::proof]
-#[kani::unwind(66)]
+#[kani::unwind(9)]
+#[kani::stub(PortActionIterator::from, PortActionIterator::verif_recording_from)]
 #[kani::stub(<WireTimestamp as core::convert::From<Time>>::from, stub_wire_from_time)]
 fn c10_delay_resp_for_delay_req() {
     let lock = ChkLock::new(any_instance_state(0));
@@ -122,12 +125,12 @@ fn c10_delay_resp_for_delay_req() {
     let msg = DelayReqMessage { origin_timestamp: any_wire_timestamp() };
     let ts = any_time();
 
-    let actions = summarize(port.handle_delay_req(req, msg, ts), 3);
+    let actions = run_actions!(port.handle_delay_req(req, msg, ts));
     let post = port_view(&port);
     assert!(instance_view(lock.peek()) == inst);
     assert!(post == pre);
     if pre.tag == 2 {
-        assert!(actions.n == 1 && actions.n_send_general == 1 && actions.n_send_event == 0 && actions.exhausted);
+        assert!(actions.n == 1 && actions.n_send_general == 1 && actions.n_send_event == 0);
         let f = actions.general.unwrap();
         assert!(!f.link_local && frame_well_formed(&f, 0x9));
         let h = spec_frame(&f);
@@ -146,7 +149,8 @@ fn c10_delay_resp_for_delay_req() {
 /// Pdelay_Resp: echoes requester and sequence id, requestReceiptTimestamp = WireTimestamp::from(ts) (to the
 /// nanosecond), request correction copied; one event send (link-local) with the PDelayResp context.
 #[kani::proof]
-#[kani::unwind(66)]
+#[kani::unwind(9)]
+#[kani::stub(PortActionIterator::from, PortActionIterator::verif_recording_from)]
 #[kani::stub(<WireTimestamp as core::convert::From<Time>>::from, stub_wire_from_time)]
 fn c10_pdelay_resp_for_pdelay_req() {
     let lock = ChkLock::new(any_instance_state(0));
@@ -157,11 +161,11 @@ fn c10_pdelay_resp_for_pdelay_req() {
     let req = any_header();
     let ts = any_time();
 
-    let actions = summarize(port.handle_pdelay_req(req, ts), 3);
+    let actions = run_actions!(port.handle_pdelay_req(req, ts));
     let post = port_view(&port);
     assert!(instance_view(lock.peek()) == inst);
     assert!(post == pre);
-    assert!(actions.n == 1 && actions.n_send_event == 1 && actions.n_send_general == 0 && actions.exhausted);
+    assert!(actions.n == 1 && actions.n_send_event == 1 && actions.n_send_general == 0);
     assert!(actions.ctx_kind == 3 && actions.ctx_id == req.sequence_id && actions.ctx_requestor == Some(req.source_port_identity));
     let f = actions.event.unwrap();
     assert!(f.link_local && frame_well_formed(&f, 0x3));
@@ -174,7 +178,8 @@ fn c10_pdelay_resp_for_pdelay_req() {
 
 /// Pdelay_Resp_Follow_Up for the reported transmit time of the response.
 #[kani::proof]
-#[kani::unwind(66)]
+#[kani::unwind(9)]
+#[kani::stub(PortActionIterator::from, PortActionIterator::verif_recording_from)]
 #[kani::stub(<WireTimestamp as core::convert::From<Time>>::from, stub_wire_from_time)]
 fn c10_pdelay_resp_follow_up_for_timestamp() {
     let lock = ChkLock::new(any_instance_state(0));
@@ -187,11 +192,11 @@ fn c10_pdelay_resp_follow_up_for_timestamp() {
     let ts = any_time();
 
     let ctx = TimestampContext { inner: actions::TimestampContextInner::PDelayResp { id, requestor_identity: requestor } };
-    let actions = summarize(port.handle_send_timestamp(ctx, ts), 3);
+    let actions = run_actions!(port.handle_send_timestamp(ctx, ts));
     let post = port_view(&port);
     assert!(instance_view(lock.peek()) == inst);
     assert!(post == pre);
-    assert!(actions.n == 1 && actions.n_send_general == 1 && actions.n_send_event == 0 && actions.exhausted);
+    assert!(actions.n == 1 && actions.n_send_general == 1 && actions.n_send_event == 0);
     let f = actions.general.unwrap();
     assert!(f.link_local && frame_well_formed(&f, 0xa));
     let h = spec_frame(&f);
